@@ -288,6 +288,13 @@ example : mmapPlan (regularEnv 16383) = .fallbackRead 0 ∧ mmapPlan (regularEnv
 example : mmapPlan { regularEnv 100000 with mapOk := fun _ => false } = .fallbackRead 0 := by decide
 -- 32-bit target, 3 GiB file
 example : mmapPlan { regularEnv (3 * 2 ^ 30) with isizeMax := 2 ^ 31 - 1 } = .fallbackRead 0 := by decide
+-- a directory on Linux: the seek "succeeds" with 2^63-1-16383, the length check passes with equality,
+-- the mmap of isize::MAX bytes fails, rewind, and the first read then reports IsADirectory
+example :
+    mmapPlan { seekEnd := .ok (2 ^ 63 - 1 - 16383), mapOk := fun _ => false } = .fallbackRead 0
+    ∧ (updateReader catUpd [.fail "IsADirectory"] [1, 2]) = ([1, 2], .error "IsADirectory") := by
+  refine ⟨by decide, ?_⟩
+  rw [update_reader_spec]; simp [outcome, Except.map]
 -- a failing rewind is the only error
 example : mmapPlan { regularEnv 100000 with mapOk := fun _ => false, rewindErr := some "Other" } = .err "Other" := by
   decide
